@@ -121,6 +121,32 @@ def explicit_values(repo: Repo):
     yield ("explicit-values:unit_object.py:Unit.__new__:cache-guard", bad is None, new.where(bad) if bad is not None else new.where(), "Unit.__new__ answers from / files into the registry's text cache although the caller supplied an explicit scale: Unit('m', base_value=5.0, dimensions=length, registry=r) makes every later Unit('m', registry=r) - and every conversion to 'm' - use 5.0, and a cached 'm' silently overrides the values given", f"cache read and cache key only under `{bv} is None`", norm(bad)[:80] if bad is not None else "")
 
 
+def _enclosing_tests(root, target):
+    """tests of the if / while statements and iterables of the for loops that enclose `target` inside `root`"""
+    out = []
+
+    def rec(node, acc):
+        if node is target:
+            out.extend(acc)
+            return True
+        for field, val in ast.iter_fields(node):
+            kids = val if isinstance(val, list) else [val]
+            for k in kids:
+                if not isinstance(k, ast.AST):
+                    continue
+                acc2 = acc
+                if isinstance(node, (ast.If, ast.While)) and field in ("body", "orelse"):
+                    acc2 = acc + [node.test]
+                elif isinstance(node, ast.For) and field in ("body", "orelse"):
+                    acc2 = acc + [node.iter]
+                if rec(k, acc2):
+                    return True
+        return False
+
+    rec(root, [])
+    return out
+
+
 def calltime_globals(repo: Repo, only_functions=None):
     """A module-level container written from inside a function body is state that outlives the call.  The reviewed
     registrations are listed above; anything else is treated as a memo layer and its key is analysed."""
@@ -138,7 +164,10 @@ def calltime_globals(repo: Repo, only_functions=None):
         if w.kind == "store" and isinstance(w.node, ast.Assign):
             t = w.node.targets[0]
             kexpr = t.slice
-            v = memo.key_coverage(w.fn, kexpr, w.node.value)
+            # what is remembered is the value *and* the fact that the store was reached: the tests that guard the store
+            # (and the iterables of the loops around it) are part of what the key has to determine
+            guards = _enclosing_tests(w.fn.node, w.node)
+            v = memo.key_coverage(w.fn, kexpr, ast.Tuple(elts=[w.node.value] + guards, ctx=ast.Load()))
             if not v.covered:
                 why = "; ".join([f"{r} reaches the key only as {p} (part of it is dropped)" for r, p in v.lossy] + [f"{r} does not reach the key" for r in v.missing])
                 yield (key, False, w.where, f"{w.qual} remembers results in the process-global {w.target} under a key that does not determine them: {why}. A later call with a different input that has the same key is served the earlier result, so the outcome depends on call history", "key built from everything the stored value depends on", w.text[:100])
